@@ -1,99 +1,187 @@
 import Driver.Common
 import Log4rsModel.Routing.Filters
+import Log4rsModel.Routing.Spec
+import Log4rsModel.Routing.LogRecord
 /-
 C03 driver.
-case   : nodeLevel TAB recordLevel TAB attached TAB appenders [TAB path]
-           attached  = `,`-list of appender numbers (the root logger's attachment list, repeats allowed)
-           appenders = `,`-list of  chain;result   chain = `|`-list of A N R T<k> t<k>, result = ok | fail
-           T<k> = real threshold filter whose consultation is recorded, t<k> = the bare real
-           `ThresholdFilter` object (its consultation is not observable, so the `f` call of that
-           position is left out of the model's and the specification's rendering alike)
-           path = builder (default) | config-yaml | config-json : how the harness constructs the
-           configuration; the model's chain is the declared one on every path
-observation (one field): the calls in order, `,`-separated: f<app>.<idx>  a<app>  h<app>   (`~` = none)
+case (fields 5–8 optional, positional):
+  1 rootLevel   2 recordLevel
+  3 attached  = `,`-list of appender numbers: the ROOT logger's attachment list (repeats allowed)
+  4 appenders = `,`-list of  chain;result
+        chain  = `|`-list of  A N R (scripted answers)  T<k> (real threshold filter, consultation
+                 recorded)  t<k> (the bare real `ThresholdFilter` object: consultation not observable)
+                 B (configuration paths only: an entry that does not deserialize), or the single
+                 token `!` (configuration paths only: `filters:` is not a sequence)
+        result = ok | fail | p<bits> (call k returns Err iff bit k is 1; later calls Ok) | panic
+  5 path      = builder | builder-many (`AppenderBuilder::filters(iter)`) | config-yaml | config-json | config-toml
+  6 history   = c<k> | d<k> : created with a configured (`new_with_err_handler`) / the default
+                (`Logger::new`) handler, then k × `Handle::set_config` with an equal configuration
+  7 loggers   = `,`-list of  name;level;additive;att|att|…   (named loggers; att = appender numbers)
+  8 target    = the record's target (default `some::target`)
+observation (one field): the calls in order, `,`-separated:
+  f<app>.<label>  a<app>  h<app> (configured handler)  d<app> (default handler: stderr line)
+  `!` last = `Log::log` unwound (panic);  ` errs=<n>` appended on path config-json (errors reported by
+  `appenders_lossy`)
 -/
 namespace Driver.C03
 open Log4rs.Proto Log4rs.Routing Log4rs Driver
 
-/-- a filter and whether its consultation is observable -/
-def decFilter (s : String) : Option (Filter × Bool) :=
+/-- a chain entry: a filter with its observability, or an entry that does not deserialize -/
+inductive Entry where
+  | filter (f : Filter) (observable : Bool)
+  | bad
+
+def decEntry (s : String) : Option Entry :=
   match s with
-  | "A" => some (.fixed .accept, true)
-  | "N" => some (.fixed .neutral, true)
-  | "R" => some (.fixed .reject, true)
+  | "A" => some (.filter (.fixed .accept) true)
+  | "N" => some (.filter (.fixed .neutral) true)
+  | "R" => some (.filter (.fixed .reject) true)
+  | "B" => some .bad
   | _ =>
-    if s.startsWith "T" then ((s.drop 1).toString.toNat?).map fun k => (Filter.threshold k, true)
-    else if s.startsWith "t" then ((s.drop 1).toString.toNat?).map fun k => (Filter.threshold k, false)
+    if s.startsWith "T" then ((s.drop 1).toString.toNat?).map fun k => .filter (.threshold k) true
+    else if s.startsWith "t" then ((s.drop 1).toString.toNat?).map fun k => .filter (.threshold k) false
     else none
 
-/-- the appender and the observability mask of its chain -/
-def decAppender (s : String) : Option (AppenderM × List Bool) :=
+structure Results where
+  results : List CallResult
+  rest : CallResult
+
+def decResults (s : String) : Option Results :=
+  if s = "ok" then some ⟨[], .ok⟩
+  else if s = "fail" then some ⟨[], .err⟩
+  else if s = "panic" then some ⟨[], .panic⟩
+  else match s.toList with
+    | 'p' :: bits =>
+      (mapM? (fun c => if c = '1' then some CallResult.err else if c = '0' then some CallResult.ok else none) bits).map
+        fun rs => ⟨rs, .ok⟩
+    | _ => none
+
+/-- a declared appender: `entries = none` ⇔ `filters:` is not a sequence -/
+structure Decl where
+  entries : Option (List Entry)
+  res : Results
+
+def decDecl (s : String) : Option Decl :=
   match splitOnChar ';' s with
   | [ch, res] =>
-    match mapM? decFilter (decList '|' ch), (if res = "ok" then some false else if res = "fail" then some true else none) with
-    | some ch, some f => some ({ chain := ch.map (·.1), fails := f }, ch.map (·.2))
-    | _, _ => none
+    match decResults res with
+    | none => none
+    | some r =>
+      if ch = "!" then some ⟨none, r⟩
+      else (mapM? decEntry (decList '|' ch)).map fun es => ⟨some es, r⟩
   | _ => none
 
-/-- drop the consultations of bare threshold filters, which the harness cannot see -/
-def observable (mask : List (List Bool)) (tr : List Event) : List Event :=
-  tr.filter fun e => match e with
-    | .filter a i => ((mask.getD a []).getD i true)
-    | _ => true
-
 inductive Path where
-  | builder | configYaml | configJson
+  | builder | builderMany | configYaml | configJson | configToml
   deriving DecidableEq
 
 def decPath : Option String → Option Path
   | none => some .builder
   | some "builder" => some .builder
+  | some "builder-many" => some .builderMany
   | some "config-yaml" => some .configYaml
   | some "config-json" => some .configJson
+  | some "config-toml" => some .configToml
   | _ => none
 
-/-- the chain the model attaches on a construction path (Routing/Filters.lean) -/
-def chainOn (p : Path) (declared : List Filter) : List Filter :=
+def Path.isConfig : Path → Bool
+  | .builder | .builderMany => false
+  | _ => true
+
+def Path.tag : Path → String
+  | .builder => "path-builder" | .builderMany => "path-builder-many" | .configYaml => "path-config-yaml"
+  | .configJson => "path-config-json" | .configToml => "path-config-toml"
+
+structure Hist where
+  configured : Bool
+  reconfs : Nat
+
+def decHist : Option String → Option Hist
+  | none => some ⟨true, 0⟩
+  | some s =>
+    match s.toList with
+    | 'c' :: k => (String.ofList k).toNat?.map fun n => ⟨true, n⟩
+    | 'd' :: k => (String.ofList k).toNat?.map fun n => ⟨false, n⟩
+    | _ => none
+
+structure LoggerIn where
+  name : Name
+  level : Nat
+  additive : Bool
+  att : List Nat
+
+def decLogger (s : String) : Option LoggerIn :=
+  match splitOnChar ';' s with
+  | [n, lv, ad, att] =>
+    match decStr n, decNat lv, decBool ad, mapM? decNat (decList '|' att) with
+    | some n, some lv, some ad, some att => some ⟨n, lv, ad, att⟩
+    | _, _, _, _ => none
+  | _ => none
+
+/-- the name the harness gives appender number `i` -/
+def appName (i : Nat) : Name := (toString i).toList
+
+def appOfName (n : Name) : Option Nat := (String.ofList n).toNat?
+
+def entryFilter? : Entry → Option (Filter × Bool)
+  | .filter f o => some (f, o)
+  | .bad => none
+
+/-- The appender a declaration yields on a construction path, as the model says
+(Routing/Filters.lean): builder paths push the declared filters (`builderVec`), configuration paths
+run `configAppender` over the entries. `none` = the appender does not exist. Also the number of
+errors `appenders_lossy` reports. -/
+def modelAppender (p : Path) (d : Decl) : Option (AppenderG Nat) × Nat :=
+  let result : Nat → CallResult := fun k => d.res.results.getD k d.res.rest
   match p with
-  | .builder => builderChain declared
-  | _ => (configChain (declared.map FilterEntry.ok)).1
+  | .builder =>
+    let fs := (d.entries.getD []).filterMap fun e => (entryFilter? e).map fun x => x.1.respond
+    (some { chain := declare (builderVec (fs.map BuilderCall.filter)), result }, 0)
+  | .builderMany =>
+    let fs := (d.entries.getD []).filterMap fun e => (entryFilter? e).map fun x => x.1.respond
+    -- first filter alone, the others in one `.filters(iter)` call
+    let calls := match fs with
+      | [] => [BuilderCall.filters []]
+      | f :: rest => [BuilderCall.filter f, BuilderCall.filters rest]
+    (some { chain := declare (builderVec calls), result }, 0)
+  | _ =>
+    let v : FiltersValue Nat := match d.entries with
+      | none => .notSeq
+      | some [] => .absent
+      | some es => .seq (es.map fun e => match e with
+          | .filter f _ => FilterEntry.ok f.respond
+          | .bad => FilterEntry.bad)
+    configAppender v result
+
+/-- the declared appender as the SPECIFICATION sees it: its valid filters in document order, each
+labelled with its document position; absent if `filters:` is not a sequence -/
+def specAppender (d : Decl) : Option (AppenderG Nat) :=
+  let result : Nat → CallResult := fun k => d.res.results.getD k d.res.rest
+  d.entries.map fun es =>
+    { chain := es.zipIdx.filterMap fun p => (entryFilter? p.1).map fun x => (p.2, x.1.respond), result }
+
+/-- labels whose consultation the harness cannot see (bare threshold objects) -/
+def hiddenLabels (d : Decl) : List Nat :=
+  (d.entries.getD []).zipIdx.filterMap fun p => match p.1 with
+    | .filter _ false => some p.2
+    | _ => none
+
+def observable (decls : List Decl) (tr : List Event) : List Event :=
+  tr.filter fun e => match e with
+    | .filter a l => !((decls[a]?.map hiddenLabels).getD []).contains l
+    | _ => true
 
 def renderEvent : Event → String
   | .filter a i => "f" ++ toString a ++ "." ++ toString i
   | .append a => "a" ++ toString a
   | .handler a => "h" ++ toString a
+  | .stderr a => "d" ++ toString a
 
 def renderTrace (tr : List Event) : String := encList "," (tr.map renderEvent)
 
-def renderOutcome : Outcome Unit (List Event) → String
-  | .ok tr => renderTrace tr
-  | _ => "PANIC"
-
-def tagsOf (table : List AppenderM) (nodeLevel : Nat) (attached : List Nat) (lvl : Nat) : List String :=
-  let apps := attached.filterMap (table[·]?)
-  let dec := apps.map fun a => firstDecisive lvl a.chain
-  let t := (if !admits nodeLevel lvl then ["not-admitted"] else [])
-    ++ (if dec.any (· = some .accept) then ["accept"] else [])
-    ++ (if dec.any (· = some .reject) then ["reject"] else [])
-    ++ (if apps.any (fun a => !a.chain.isEmpty && firstDecisive lvl a.chain = none) then ["all-neutral"] else [])
-    ++ (if apps.any (fun a => specConsulted lvl a.chain < a.chain.length) then ["short-circuit"] else [])
-    ++ (if apps.any (fun a => a.chain.any (fun f => match f with | .threshold _ => true | _ => false)) then ["threshold"] else [])
-    ++ (if attached.any (specErrs table lvl) then ["error-handled"] else [])
-    ++ (if apps.any (fun a => a.fails && !specDelivered lvl a.chain) then ["failing-but-rejected"] else [])
-    ++ (if (attached.filter (specErrs table lvl)).length ≥ 2 then ["multi-error"] else [])
-    ++ (if !attached.Nodup then ["attached-twice"] else [])
-    ++ (if apps.any (fun a => a.chain.length > 5) then ["long-chain"] else [])
-    ++ (if apps.any (fun a => (a.chain.filter (fun f => match f with | .threshold _ => true | _ => false)).length ≥ 2)
-        then ["multi-threshold"] else [])
-    ++ (if apps.any (fun a => match a.chain with
-          | .threshold x :: .threshold y :: _ => x != y
-          | _ => false) then ["leading-thresholds-differ"] else [])
-    ++ (if apps.any (fun a =>
-          let rs := a.chain.map (·.respond lvl)
-          match rs.findIdx? (· = .accept), a.chain.findIdx? (fun f => f.respond lvl = .reject && match f with | .threshold _ => true | _ => false) with
-          | some i, some j => i < j && (rs.take i).all (· = .neutral)
-          | _, _ => false) then ["accept-before-rejecting-threshold"] else [])
-  if attached.isEmpty || apps.all (fun a => a.chain.isEmpty && !a.fails) then "trivial" :: t else t
+def renderResult (decls : List Decl) : LogResult → String
+  | .returned tr => renderTrace (observable decls tr)
+  | .panicked tr => let t := (observable decls tr).map renderEvent; ",".intercalate (t ++ ["!"])
 
 def decEvent (s : String) : Option Event :=
   match s.toList with
@@ -105,32 +193,64 @@ def decEvent (s : String) : Option Event :=
     | _ => none
   | 'a' :: rest => (String.ofList rest).toNat?.map Event.append
   | 'h' :: rest => (String.ofList rest).toNat?.map Event.handler
+  | 'd' :: rest => (String.ofList rest).toNat?.map Event.stderr
   | _ => none
 
-def isHandler : Event → Bool
-  | .handler _ => true
+def isHandling : Event → Bool
+  | .handler _ | .stderr _ => true
   | _ => false
 
 def isAppend : Event → Bool
   | .append _ => true
   | _ => false
 
+/-- move the events of the compacted table (present appenders only) back to the harness numbers -/
+def renumber (ids : List Nat) : Event → Event
+  | .filter a l => .filter (ids.getD a a) l
+  | .append a => .append (ids.getD a a)
+  | .handler a => .handler (ids.getD a a)
+  | .stderr a => .stderr (ids.getD a a)
+
+def LogResult.mapEvents (f : Event → Event) : LogResult → LogResult
+  | .returned tr => .returned (tr.map f)
+  | .panicked tr => .panicked (tr.map f)
+
+/-- no handler call before the error it reports: walking the trace, the handler/stderr calls for
+appender `i` never outnumber the `append` calls of `i` made so far that return `Err` -/
+def handledAfterError (resultOf : Nat → Nat → CallResult) (tr : List Event) : Bool :=
+  let rec go (tr : List Event) (calls errs handled : List Nat) : Bool :=
+    match tr with
+    | [] => true
+    | .append i :: rest =>
+      let k := calls.count i
+      go rest (i :: calls) (if resultOf i k = .err then i :: errs else errs) handled
+    | .handler i :: rest => handled.count i < errs.count i && go rest calls errs (i :: handled)
+    | .stderr i :: rest => handled.count i < errs.count i && go rest calls errs (i :: handled)
+    | _ :: rest => go rest calls errs handled
+  go tr [] [] []
+
 /-- The statement, evaluated on the calls the real code made. Per appender `i`: the sequence of its
 own filter consultations and `append` calls is the one its own chain prescribes (once per
-attachment), and the handler got exactly as many of its errors as it returned. The statement does
-not fix how the calls of different appenders interleave, nor when the handler runs; that is left to
-the correspondence check. -/
-def specVerdict (table : List AppenderM) (nl : Nat) (_att : List Nat) (rl : Nat) (want impl : List Event) :
-    Option String :=
-  if impl.any (fun e => e.app ≥ table.length) then some "call-to-unknown-appender"
-  else if !admits nl rl && !impl.isEmpty then some "not-admitted-record-delivered"
+attachment along the logger chain of the target), the configured handler — the default one when
+none was configured — got exactly as many of its errors as its calls returned, no other handler got
+any, and no error was handled before the call that returned it. The statement does not fix how the
+calls of different appenders interleave; that is left to the correspondence check. -/
+def specVerdict (n : Nat) (admitted : Bool) (configured : Bool) (resultOf : Nat → Nat → CallResult)
+    (want impl : List Event) : Option String :=
+  if impl.any (fun e => e.app ≥ n) then some "call-to-unknown-appender"
+  else if !admitted && !impl.isEmpty then some "not-admitted-record-delivered"
   else
-    let bad (f : Nat → Bool) := (List.range table.length).any f
-    let own (i : Nat) (tr : List Event) := (project i tr).filter (fun e => !isHandler e)
+    let bad (f : Nat → Bool) := (List.range n).any f
+    let own (i : Nat) (tr : List Event) := (project i tr).filter (fun e => !isHandling e)
     let cnt (p : Event → Bool) (i : Nat) (tr : List Event) := ((project i tr).filter p).length
+    let isH : Event → Bool := fun e => match e with | .handler _ => true | _ => false
+    let isD : Event → Bool := fun e => match e with | .stderr _ => true | _ => false
     if bad (fun i => cnt isAppend i impl != cnt isAppend i want) then some "deliveries-differ"
     else if bad (fun i => own i impl != own i want) then some "filter-consultations-differ"
-    else if bad (fun i => cnt isHandler i impl != cnt isHandler i want) then some "handler-calls-differ"
+    else if configured && bad (fun i => cnt isD i impl != 0) then some "error-not-to-configured-handler"
+    else if !configured && bad (fun i => cnt isH i impl != 0) then some "error-to-a-handler-nobody-configured"
+    else if bad (fun i => cnt isHandling i impl != cnt isHandling i want) then some "handler-calls-differ"
+    else if !handledAfterError resultOf impl then some "error-handled-before-it-was-returned"
     else none
 
 def insertAll {α} (x : α) : List α → List (List α)
@@ -141,68 +261,135 @@ def perms {α} : List α → List (List α)
   | [] => [[]]
   | x :: xs => (perms xs).flatMap (insertAll x)
 
-/-- the chain interpreter on filters that keep the position they were declared at as a label -/
-def runLabeled (lvl : Nat) : List (Nat × Filter) → List Nat × Bool
-  | [] => ([], true)
-  | (i, f) :: rest =>
-    match f.respond lvl with
-    | .accept => ([i], true)
-    | .reject => ([i], false)
-    | .neutral => let r := runLabeled lvl rest; (i :: r.1, r.2)
-
 /-- Classifier for the signature only: is what appender `i` received explained by consulting its
 declared filters in some OTHER order? (Chains of up to 6 filters; longer ones are not classified.) -/
-def explainedByReorder (declared : List AppenderM) (mask : List (List Bool)) (att : List Nat) (rl : Nat)
-    (impl : List Event) : Bool :=
-  (List.range declared.length).any fun i =>
-    match declared[i]? with
-    | none => false
-    | some a =>
-      let own (tr : List Event) := (project i tr).filter (fun e => !isHandler e)
-      let block (order : List (Nat × Filter)) : List Event :=
-        let r := runLabeled rl order
-        observable mask (r.1.map (Event.filter i) ++ (if r.2 then [Event.append i] else []))
-      let times (b : List Event) := (List.replicate (att.count i) b).flatten
-      let labelled := a.chain.zipIdx.map fun p => (p.2, p.1)
-      a.chain.length ≤ 6 && own impl != times (block labelled) &&
-        (perms labelled).any fun o => own impl == times (block o)
+def explainedByReorder (decls : List Decl) (specTable : List (Option (AppenderG Nat))) (rl : Nat)
+    (want impl : List Event) : Bool :=
+  (List.range specTable.length).any fun i =>
+    match specTable[i]? with
+    | some (some a) =>
+      let own (tr : List Event) := (project i tr).filter (fun e => !isHandling e)
+      let times := ((own want).filter isAppend).length.max 1
+      let block (order : List (LFilter Nat)) : List Event :=
+        let r := runChainL rl order
+        observable decls (r.1.map (Event.filter i) ++ (if r.2 then [Event.append i] else []))
+      let rep (b : List Event) (k : Nat) := (List.replicate k b).flatten
+      a.chain.length ≤ 6 && own impl != own want &&
+        (perms a.chain).any fun o => (List.range 4).any fun k => own impl == rep (block o) (k + 1) && times ≤ 4
+    | _ => false
+
+def tagsOf (decls : List Decl) (path : Path) (hist : Hist) (loggers : List LoggerIn) (attIds : List Nat)
+    (admitted : Bool) (lvl : Nat) (specTable : List (Option (AppenderG Nat))) (effIsRoot : Bool) : List String :=
+  let apps : List (AppenderG Nat) := attIds.filterMap fun i => (specTable[i]?).join
+  let chainFns (a : AppenderG Nat) := fns a.chain
+  let dec := apps.map fun a => firstDecisive lvl (chainFns a)
+  let thr (d : Decl) := (d.entries.getD []).filter fun e => match e with | .filter (.threshold _) _ => true | _ => false
+  let attDecls := attIds.filterMap (decls[·]?)
+  let t := [path.tag]
+    ++ (if !admitted then ["not-admitted"] else [])
+    ++ (if dec.any (· = some .accept) then ["accept"] else [])
+    ++ (if dec.any (· = some .reject) then ["reject"] else [])
+    ++ (if apps.any (fun a => !a.chain.isEmpty && firstDecisive lvl (chainFns a) = none) then ["all-neutral"] else [])
+    ++ (if apps.any (fun a => specConsulted lvl (chainFns a) < a.chain.length) then ["short-circuit"] else [])
+    ++ (if attDecls.any (fun d => !(thr d).isEmpty) then ["threshold"] else [])
+    ++ (if attDecls.any (fun d => (thr d).length ≥ 2) then ["multi-threshold"] else [])
+    ++ (if attDecls.any (fun d => !(hiddenLabels d).isEmpty) then ["bare-threshold"] else [])
+    ++ (if attDecls.any (fun d => match d.entries.getD [] with
+          | .filter (.threshold x) _ :: .filter (.threshold y) _ :: _ => x != y
+          | _ => false) then ["leading-thresholds-differ"] else [])
+    ++ (if decls.any (fun d => (d.entries.getD []).any fun e => match e with | .bad => true | _ => false) && path.isConfig
+        then ["bad-entry"] else [])
+    ++ (if decls.any (fun d => d.entries.isNone) && path.isConfig then ["filters-not-a-sequence"] else [])
+    ++ (if !attIds.Nodup then ["attached-twice"] else [])
+    ++ (if apps.any (fun a => a.chain.length > 5) then ["long-chain"] else [])
+    ++ (if attDecls.any (fun d => !d.res.results.isEmpty) then ["per-call-result"] else [])
+    ++ (if admitted && (attIds.zipIdx.any fun p => match specTable[p.1]? with
+          | some (some a) => specDelivered lvl (chainFns a) && a.result ((attIds.take p.2).count p.1) = .err
+          | _ => false) then ["error-handled"] else [])
+    ++ (if attDecls.any (fun d => d.res.rest = .panic) then ["panic-out-of-statement"] else [])
+    ++ (if !loggers.isEmpty then ["named-loggers"] else [])
+    ++ (if !effIsRoot then ["effective-named-logger"] else [])
+    ++ (if !effIsRoot && loggers.any (fun l => l.additive) && !attIds.Nodup then ["same-appender-twice-along-chain"] else [])
+    ++ (if !effIsRoot && apps.any (fun a => !a.chain.isEmpty) then ["filters-on-non-root-node"] else [])
+    ++ (if hist.reconfs > 0 then ["reconf"] else [])
+    ++ (if hist.reconfs > 0 && hist.configured then ["reconf-configured-handler"] else [])
+    ++ (if !hist.configured then ["default-handler"] else [])
+  if attIds.isEmpty || (apps.all (fun a => a.chain.isEmpty) && attDecls.all (fun d => d.res.results.isEmpty && d.res.rest = .ok)
+      && loggers.isEmpty && hist.reconfs = 0) then "trivial" :: t else t
 
 def handle : Handler := fun cas obs =>
   match cas, obs with
-  | nl :: rl :: att :: apps :: rest, [implObs] =>
-    match decNat nl, decNat rl, mapM? decNat (decList ',' att), mapM? decAppender (decList ',' apps),
-          (if rest.length ≤ 1 then decPath rest.head? else none) with
-    | some nl, some rl, some att, some decoded, some path =>
-      let mask := decoded.map (·.2)
-      let declared := decoded.map (·.1)
-      if att.any (· ≥ declared.length) then badCase "attachment out of range" else
-      -- model: the chain as the construction path attaches it; spec: the declared chain
-      let table := declared.map fun a => { a with chain := chainOn path a.chain }
-      let wantEvents := observable mask (specTrace declared nl att rl)
+  | rootLv :: rl :: att :: apps :: rest, [implObs] =>
+    match decNat rootLv, decNat rl, mapM? decNat (decList ',' att), mapM? decDecl (decList ',' apps),
+          (if rest.length ≤ 4 then decPath rest[0]? else none), decHist rest[1]?,
+          mapM? decLogger (decList ',' (rest[2]?.getD "~")),
+          (match rest[3]? with | none => some "some::target".toList | some t => decStr t) with
+    | some rootLv, some rl, some att, some decls, some path, some hist, some loggers, some target =>
+      let n := decls.length
+      if att.any (· ≥ n) || loggers.any (fun l => l.att.any (· ≥ n)) then badCase "attachment out of range" else
+      if !path.isConfig && decls.any (fun d => d.entries.isNone || (d.entries.getD []).any fun e => match e with | .bad => true | _ => false)
+      then badCase "bad entries need a configuration path" else
+      -- what exists after loading: appenders whose `filters:` is not a sequence are gone, and
+      -- `build_lossy` strips the references to them (C13)
+      let built := decls.map (modelAppender path)
+      let presentIds := (List.range n).filter fun i => ((built[i]?.map (·.1)).join).isSome
+      let tablePresent : List (AppenderG Nat) := built.filterMap (·.1)
+      let errs := (built.map (·.2)).foldl (· + ·) 0
+      let strip (l : List Nat) := l.filter (presentIds.contains ·)
+      let cfg : Config := {
+        appenders := presentIds.map appName, rootLevel := rootLv,
+        rootAppenders := (strip att).map appName,
+        loggers := loggers.map fun l => { name := l.name, level := l.level, additive := l.additive,
+                                          appenders := (strip l.att).map appName } }
+      -- specification: effective logger and its chain by names, no tree, no indices
+      let specLv := Tree.specLevel cfg target
+      let admitted := admits specLv rl
+      let chainNames := Tree.chain cfg (Tree.comps target).length (Tree.effective cfg target)
+      let attIds := chainNames.filterMap appOfName
+      let specTable : List (Option (AppenderG Nat)) := decls.map specAppender
+      let specTableG : List (AppenderG Nat) := specTable.map fun o => o.getD { chain := [], result := fun _ => .ok }
+      let h : HandlerId := if hist.configured then .configured else .default
+      let wantRaw := (specTraceG specTableG specLv attIds id rl).map (viaHandler h)
+      let wantEvents := observable decls wantRaw
       let want := renderTrace wantEvents
-      let viaConfig := path ≠ .builder
-      { model := match fanout table nl att rl with
-          | .ok tr => renderTrace (observable mask tr)
-          | _ => "PANIC",
+      let reachesPanic := admitted && attIds.any fun i => match specTable[i]? with
+        | some (some a) => specDelivered rl (fns a.chain) && (List.range (attIds.count i)).any (fun k => a.result k = .panic)
+        | _ => false
+      -- model: tree of `SharedLogger::new`, `find`, fan-out, handler of the snapshot after the history
+      let model : String :=
+        match snapshotOf cfg tablePresent h target with
+        | none => "PANIC"
+        | some s0 =>
+          -- every `set_config` installs an equal configuration: same table, same node for the target
+          let s := s0.reconfigureWith handlerKeptAcrossSetConfig
+            (List.replicate hist.reconfs (tablePresent, s0.nodeLevel, s0.attached))
+          renderResult decls (LogResult.mapEvents (renumber presentIds) (s.log id rl))
+      let model := if path = .configJson then model ++ " errs=" ++ toString errs else model
+      let implCore := match splitOnChar ' ' implObs with
+        | c :: _ => c
+        | [] => implObs
+      let resultOf (i k : Nat) : CallResult := match specTable[i]? with
+        | some (some a) => a.result k
+        | _ => .ok
+      { model,
         spec :=
-          if implObs = "PANIC" then "FAIL:panic;sig=C03/panic"
-          else if implObs = "CONFIG-ERROR" then "FAIL:config-not-loaded;sig=C03/config-path-not-loaded" else
-          match mapM? decEvent (decList ',' implObs) with
+          if implObs = "CONFIG-ERROR" then "FAIL:config-not-loaded;sig=C03/config-path-not-loaded"
+          else if reachesPanic then "ok"      -- a panicking appender is outside the statement
+          else if implCore = "PANIC" || implCore.endsWith "!" then "FAIL:panic;sig=C03/panic" else
+          match mapM? decEvent (decList ',' implCore) with
           | none => "FAIL:unreadable-observation;sig=C03/unreadable-observation"
           | some impl =>
-            match specVerdict declared nl att rl wantEvents impl with
+            match specVerdict n admitted hist.configured resultOf wantEvents impl with
             | none => "ok"
             | some clause =>
               let sig :=
-                if viaConfig && (clause = "deliveries-differ" || clause = "filter-consultations-differ")
-                   && admits nl rl && explainedByReorder declared mask att rl impl
+                if clause = "error-not-to-configured-handler" && hist.reconfs > 0 then "err-handler-lost-on-set-config"
+                else if path.isConfig && (clause = "deliveries-differ" || clause = "filter-consultations-differ")
+                   && admitted && explainedByReorder decls specTable rl wantEvents impl
                 then "config-path-reorders-filters" else clause
               "FAIL:" ++ clause ++ " expected " ++ want ++ ";sig=C03/" ++ sig,
-        tags := (match path with
-          | .builder => "path-builder" | .configYaml => "path-config-yaml" | .configJson => "path-config-json")
-          :: (if mask.any (·.any (!·)) then ["bare-threshold"] else [])
-          ++ tagsOf declared nl att rl }
-    | _, _, _, _, _ => badCase "fields"
+        tags := tagsOf decls path hist loggers attIds admitted rl specTable (Tree.effective cfg target).isNone }
+    | _, _, _, _, _, _, _, _ => badCase "fields"
   | _, _ => badCase "arity"
 
 end Driver.C03
